@@ -37,14 +37,14 @@ CLAIMED = {
         'universe; all bounded histories plus simulated long ones are replayed on func_utils.LruCache, on LazyFn.result_ with the bound set to Cap '
         '(identity of returned objects, evaluation counts, cache_info, order), on the LazyObject cache (missing-object error) and on '
         'maybe_make with every second make through a pickle round trip.',
-        'Bounded: 3-4 keys, cap 2-3, <=7 ops (12 simulated); expressions of depth 2 over inc/add/tick/boom/box/attr/item.',
+        'Bounded: 3-4 keys, cap 2-3, <=7 ops (12 simulated); expressions of depth 2 over inc/add/kwf/tick/boom/box/attr/item; further instances with typed literals (1, True, 1.0), the callees kind / enc / mkerr, falsy literals and literals built as lazy values; a 70 000-node run around a held handle (ids never repeat).',
         '5/C17'),
     'C18': (
         'TLA+ spec (TreeView.tla: Get/Set/Leaves/Apply transcription) with the laws checked by TLC; behaviours replayed on TreeMapView with mutation snapshots',
         'TLC checks get-after-set, frame (both directions), set-current-is-identity, SELF/SKIP, leaves-read-back and apply-maps-leaves '
         'for every tree/path/value of the bounded universe; every behaviour (tree, <=3 copy-and-sets) is replayed on TreeMapView '
         'comparing result, items(), apply() and checking that no container reachable from the original or from earlier versions was written; '
-        'a second pass puts numpy arrays in the trees.',
+        'a second pass puts numpy arrays in the trees; the law ResetRestores binds copy_and_update (pairs, a key twice, mapping, |); multi-key reads are compared with one-key reads; root leaves of every truth value.',
         'Bounded: trees of depth<=2 over keys {a,b}, sequences<=2, paths<=3, SELF/SKIP as single-element paths.',
         '5/C18'),
     'C04': (
@@ -124,7 +124,7 @@ CLAIMED = {
         'TLC checks for two concurrent clients that only values/exceptions/references travel, a remote iterator hands out each element exactly once, gap-free and in order per client, '
         'exhaustion is stable and only at the end, server-side state is shared (linearizable counter), errors in the shutdown window are the retriable TimeoutError and every request is answered. '
         'Every single-client behaviour is executed on the real code and each answer compared with the spec and with the same operation on a local object (value, or exception type and message); '
-        'every expression of the LazyEval universe is evaluated remotely and locally (value/exception and number of evaluations); 30-200 recorded executions of 2-3 client threads sharing '
+        'every expression of the LazyEval universe (incl. typed literals and bytes- / exception-valued callees) is evaluated remotely, locally and in plain Python (value/exception and number of evaluations); 30-200 recorded executions of 2-3 client threads sharing '
         'references, with a shutdown at a random point, are accepted by TLC only if some placement of the unlogged linearization points explains every logged answer, all invariants evaluated at every step.',
         'In-process transport (pickling on every call, handlers on a thread pool); 2 clients x 4-5 calls exhaustive; object kinds box/counter/list/iterator; a stopped server is outside the statement.',
         '5/C14'),
@@ -150,7 +150,7 @@ CLAIMED = {
         'streams of <=2 batches x <=2 rows, <=2 of 8 slicer kinds (single feature, cross, restricted values, fan-out function, mask function, mask-with-replace), one or two stacked aggregates, slicing disabled on one. '
         'Each configuration (exhaustive small universe plus simulated ones with 3 batches x 3 rows x 3 slicers) is executed with list and numpy batches: exactly the expected keys (none invented, none dropped) '
         'and, under each key, exactly the rows of that slice in order.',
-        'Aggregates collect the rows they are fed; rows are (a, b) pairs of small ints.',
+        'Aggregates collect the rows they are fed; rows are (a, b) pairs of small ints; further modes: a 2-column array, a ragged list column, generator-returning slice functions, the alias builders agg / add_agg.',
         '5/C02'),
     'C03': (
         'TLA+ spec ExecStrategy.tla (shards x worker threads over the transcribed interval arithmetic, every arrival order an interleaving) model-checked by TLC; the same pipelines run on the real code under every strategy of the bounded universe and compared with the sequential fused run',
